@@ -359,214 +359,9 @@ func checkC18(c *Ctx) {
 		c.Check(ok, "R18.3", wg.String(), "empty-name-returns-receiver", wg.Pos(), "slog.Handler: \"If the name is empty, WithGroup returns the receiver\"")
 	}
 	// ---------------- R18.4 ----------------
+	c18EmitProtocol(c, "R18.4")
 	hd := c.Method(SlogPath, "Handler", "Handle")
 	wa := c.Method(SlogPath, "Handler", "WithAttrs")
-	if c.Anchor("R18.4", "zapslog.Handler.Handle/WithAttrs", hd != nil && wa != nil) {
-		// emitters: helpers that append one Namespace field per pending group
-		emitters := map[*ssa.Function]bool{}
-		c.EachRootFunc(func(f *ssa.Function) {
-			if f.Pkg == nil || f.Pkg.Pkg.Path() != SlogPath || f == hd || f == wa || f.Parent() != nil {
-				return
-			}
-			for _, cl := range Calls(f) {
-				if IsCallTo(cl, "go.uber.org/zap.Namespace") {
-					emitters[f] = true
-				}
-			}
-		})
-		for f := range emitters {
-			var ns *ssa.Call
-			for _, cl := range Calls(f) {
-				if IsCallTo(cl, "go.uber.org/zap.Namespace") {
-					ns, _ = cl.(*ssa.Call)
-				}
-			}
-			ok, over, why := LoopVisitsAll(f, ns)
-			c.Check(ok && strings.HasSuffix(over, ".groups"), "R18.4", f.String(), "emits-every-group", f.Pos(), "the emitter appends one Namespace field for every pending group, in order, no early exit (ranges over %s%s)", over, why)
-		}
-		for _, fn := range []*ssa.Function{hd, wa} {
-			recv := fn.Params[0]
-			rn := recv.Name()
-			cut := 0
-			seqs, trunc := ConcPaths(fn, ConcCfg{
-				MaxIter: 3, IterClosures: true, Cut: &cut, MaxStates: 400000,
-				Inline: func(h *ssa.Function) bool { return !emitters[h] && h.Name() != "convertAttrToField" },
-				Event: func(in ssa.Instruction, st *ConcState) string {
-					switch x := in.(type) {
-					case *ssa.Call:
-						if f := StaticCallee(x); f != nil && emitters[f] {
-							return "emit"
-						}
-						switch {
-						case IsCallTo(x, SlogPath+".convertAttrToField"):
-							return "attr"
-						case IsCallTo(x, "go.uber.org/zap.Namespace"):
-							return "ns"
-						case IsCallTo(x, "(go.uber.org/zap/zapcore.Core).With"):
-							return "with"
-						case IsCallTo(x, "(*go.uber.org/zap/zapcore.CheckedEntry).Write"):
-							return "write"
-						case CallBuiltin(x) == "append":
-							if sl, ok := types.Unalias(x.Type()).Underlying().(*types.Slice); ok && strings.HasSuffix(sl.Elem().String(), "zapcore.Field") {
-								return "add"
-							}
-						}
-					case *ssa.Store:
-						if fa, ok := x.Addr.(*ssa.FieldAddr); ok && fieldName(fa.X.Type(), fa.Field) == "groups" {
-							base := Strip(fa.X)
-							for k := 0; k < 6; k++ {
-								if nx := st.Step(base); nx != nil {
-									base = Strip(nx)
-								}
-							}
-							if Root(base) == ssa.Value(recv) {
-								return "store-receiver-groups"
-							}
-							if n, known := st.IsNil(x.Val); known && n {
-								return "clear"
-							}
-							return "set-groups"
-						}
-					}
-					return ""
-				},
-				Branch: func(cond ssa.Value, taken bool, st *ConcState) string {
-					pol := taken
-					for k := 0; k < 8; k++ {
-						if u, ok := cond.(*ssa.UnOp); ok && u.Op == token.NOT {
-							cond, pol = u.X, !pol
-							continue
-						}
-						if nx := st.Step(cond); nx != nil {
-							cond = nx
-							continue
-						}
-						break
-					}
-					tf := func(n string, v bool) string {
-						if v {
-							return n + "=T"
-						}
-						return n + "=F"
-					}
-					bo, ok := cond.(*ssa.BinOp)
-					if !ok {
-						return ""
-					}
-					isConv := func(v ssa.Value) bool {
-						v = Strip(v)
-						for k := 0; k < 8; k++ {
-							if cl, ok := v.(*ssa.Call); ok && IsCallTo(cl, SlogPath+".convertAttrToField") {
-								return true
-							}
-							nx := st.Step(v)
-							if nx == nil {
-								return false
-							}
-							v = Strip(nx)
-						}
-						return false
-					}
-					isSkip := func(v ssa.Value) bool {
-						cl, ok := Strip(v).(*ssa.Call)
-						return ok && IsCallTo(cl, "go.uber.org/zap.Skip")
-					}
-					if (isConv(bo.X) && isSkip(bo.Y) || isConv(bo.Y) && isSkip(bo.X)) && (bo.Op == token.NEQ || bo.Op == token.EQL) {
-						return tf("real", pol == (bo.Op == token.NEQ))
-					}
-					x, y, op := st.Desc(bo.X), st.Desc(bo.Y), bo.Op
-					if y == "len("+rn+".groups)" && x == "0" {
-						x, y, op = y, x, swapOp(op)
-					}
-					if x == "len("+rn+".groups)" && y == "0" {
-						switch op {
-						case token.GTR, token.NEQ:
-							return tf("pending", pol)
-						case token.EQL, token.LEQ:
-							return tf("pending", !pol)
-						}
-					}
-					return ""
-				},
-			})
-			n := fn.String()
-			if trunc || len(seqs) == 0 {
-				c.Und("R18.4", n, "emission-protocol", fn.Pos(), "path exploration incomplete (%d sequences, truncated=%v)", len(seqs), trunc)
-				continue
-			}
-			var bad []string
-			nEmit := 0
-			for _, sq := range seqs {
-				ev := strings.Split(sq, " ; ")
-				emitted, inAttr, emitThis, addedThis := false, false, false, false
-				facts := map[string]bool{}
-				cleared := false
-				why := ""
-				flush := func() {
-					// end of one attribute's step
-					if inAttr && !emitThis && !emitted && facts["pending=T"] && facts["real=T"] {
-						why = "a real field is added while groups are pending and not yet emitted"
-					}
-					if inAttr && !emitThis && !emitted && !(facts["pending=F"] || facts["real=F"]) {
-						why = "a field is added without emitting although neither 'no groups pending' nor 'field is Skip' was established"
-					}
-				}
-				for _, e := range ev {
-					switch e {
-					case "attr":
-						flush()
-						inAttr, emitThis, addedThis = true, false, false
-						facts = map[string]bool{}
-					case "emit", "ns":
-						if e == "ns" && emitThis {
-							continue
-						}
-						nEmit++
-						switch {
-						case !inAttr:
-							why = "groups emitted outside an attribute step"
-						case emitted:
-							why = "groups emitted twice"
-						case addedThis:
-							why = "groups emitted after the field they should precede"
-						case !(facts["real=T"]):
-							why = "groups emitted without having established that the field is not Skip (an empty group would appear)"
-						}
-						emitThis, emitted = true, true
-					case "add":
-						if inAttr {
-							addedThis = true
-						}
-					case "clear":
-						cleared = true
-					case "store-receiver-groups", "set-groups":
-						why = "the pending groups are overwritten (" + e + ")"
-					case "with", "write":
-						flush()
-						inAttr = false
-					default:
-						if inAttr && !addedThis {
-							facts[e] = true
-						}
-					}
-				}
-				flush()
-				if fn == wa && cleared != emitted {
-					why = "the derived handler must drop its pending groups exactly when they were emitted into the core"
-				}
-				if fn == hd && cleared {
-					why = "Handle must not clear groups"
-				}
-				if why != "" {
-					bad = append(bad, why+": "+sq)
-				}
-			}
-			if len(bad) > 3 {
-				bad = append(bad[:3], "… "+itoa(len(bad)-3)+" more")
-			}
-			c.Check(len(bad) == 0 && nEmit > 0, "R18.4", n, "emission-protocol", fn.Pos(), "over %d paths (up to 3 attributes, helpers and the attribute callback explored inline; %d longer paths cut): the pending groups are emitted exactly once, immediately before the first field that is not Skip, only when groups are pending, never otherwise; %s: %v", len(seqs), cut, map[bool]string{true: "WithAttrs clears the clone's groups exactly when it emitted them", false: "Handle leaves the handler's groups untouched"}[fn == wa], bad)
-		}
-	}
 
 	// ---------------- R18.5 ----------------
 	for _, fn := range []*ssa.Function{wg, wa} {
@@ -592,12 +387,8 @@ func checkC18(c *Ctx) {
 			})
 		}
 		c.Check(len(bad) == 0, "R18.5", fn.String(), "pure", fn.Pos(), "no store through the receiver and no uncapped append onto its slices: %v", bad)
-		// returns a fresh clone (or the receiver itself on the no-op branch)
-		for k, r := range Returns(fn) {
-			v := Strip(RetVals(r)[0])
-			isAlloc := c18FreshCopy(v, h, 0)
-			c.Check(isAlloc || v == ssa.Value(h), "R18.5", fn.String(), "returns-clone#"+itoa(k+1), r.Pos(), "returns a fresh copy of the handler (or the untouched receiver): %s", Desc(v))
-		}
+		c7Appends(c, "R18.5", fn)
+		c18Carries(c, "R18.5", fn)
 	}
 
 	// ---------------- R18.6 ----------------
@@ -877,7 +668,6 @@ func c18FreshCopy(v ssa.Value, h ssa.Value, depth int) bool {
 	return false
 }
 
-
 // structValueFields renders the fields of a struct VALUE v that is the load of a local struct variable: a whole copy
 // (from a parameter or another variable) gives "<src>.f", a store to a field overrides it.
 func structValueFields(v ssa.Value) map[string]string {
@@ -912,4 +702,266 @@ func structValueFields(v ssa.Value) map[string]string {
 		}
 	}
 	return out
+}
+
+// c18Carries: the handler a derive method returns is the receiver itself or a new Handler in which every field other
+// than core and groups is the receiver's (struct copy, clone helper or complete literal alike).
+func c18Carries(c *Ctx, rule string, fn *ssa.Function) {
+	hn := c.Named(SlogPath, "Handler")
+	if hn == nil || len(fn.Params) == 0 {
+		return
+	}
+	h := fn.Params[0]
+	st, _ := hn.Underlying().(*types.Struct)
+	bf := BuiltFields(fn, hn)
+	var lost []string
+	for i := 0; st != nil && i < st.NumFields(); i++ {
+		f := st.Field(i).Name()
+		if f == "core" || f == "groups" {
+			continue
+		}
+		if b, ok := bf[f]; !ok || b.Desc != h.Name()+"."+f {
+			got := "left at its zero value"
+			if ok {
+				got = "set to " + b.Desc
+			}
+			lost = append(lost, f+" "+got)
+		}
+	}
+	c.Check(len(lost) == 0 && len(bf) > 0, rule, fn.String(), "carries-settings", fn.Pos(), "the derived handler keeps every setting of its parent (name, caller and stack options, caller skip): %v", lost)
+	for k, r := range Returns(fn) {
+		v := Strip(RetVals(r)[0])
+		okR := v == ssa.Value(h)
+		if !okR {
+			if n, isN := types.Unalias(deref(v.Type())).(*types.Named); isN && n.Origin() == hn.Origin() {
+				okR = true
+			}
+		}
+		c.Check(okR, rule, fn.String(), "returns-handler#"+itoa(k+1), r.Pos(), "returns the receiver or a *Handler (%s)", Desc(v))
+	}
+}
+
+// c18Emit: the pending-group emission protocol of Handle and WithAttrs (see R18.4).
+func c18EmitProtocol(c *Ctx, rule string) {
+	hd := c.Method(SlogPath, "Handler", "Handle")
+	wa := c.Method(SlogPath, "Handler", "WithAttrs")
+	if c.Anchor(rule, "zapslog.Handler.Handle/WithAttrs", hd != nil && wa != nil) {
+		// emitters: helpers that append one Namespace field per pending group
+		emitters := map[*ssa.Function]bool{}
+		c.EachRootFunc(func(f *ssa.Function) {
+			if f.Pkg == nil || f.Pkg.Pkg.Path() != SlogPath || f == hd || f == wa || f.Parent() != nil {
+				return
+			}
+			for _, cl := range Calls(f) {
+				if IsCallTo(cl, "go.uber.org/zap.Namespace") {
+					emitters[f] = true
+				}
+			}
+		})
+		for f := range emitters {
+			var ns *ssa.Call
+			for _, cl := range Calls(f) {
+				if IsCallTo(cl, "go.uber.org/zap.Namespace") {
+					ns, _ = cl.(*ssa.Call)
+				}
+			}
+			ok, over, why := LoopVisitsAll(f, ns)
+			c.Check(ok && strings.HasSuffix(over, ".groups"), rule, f.String(), "emits-every-group", f.Pos(), "the emitter appends one Namespace field for every pending group, in order, no early exit (ranges over %s%s)", over, why)
+		}
+		for _, fn := range []*ssa.Function{hd, wa} {
+			recv := fn.Params[0]
+			rn := recv.Name()
+			cut := 0
+			seqs, trunc := ConcPaths(fn, ConcCfg{
+				MaxIter: 3, IterClosures: true, Cut: &cut, MaxStates: 400000,
+				Inline: func(h *ssa.Function) bool { return !emitters[h] && h.Name() != "convertAttrToField" },
+				Event: func(in ssa.Instruction, st *ConcState) string {
+					switch x := in.(type) {
+					case *ssa.Call:
+						if f := StaticCallee(x); f != nil && emitters[f] {
+							return "emit"
+						}
+						switch {
+						case IsCallTo(x, SlogPath+".convertAttrToField"):
+							return "attr"
+						case IsCallTo(x, "go.uber.org/zap.Namespace"):
+							return "ns"
+						case IsCallTo(x, "(go.uber.org/zap/zapcore.Core).With"):
+							return "with"
+						case IsCallTo(x, "(*go.uber.org/zap/zapcore.CheckedEntry).Write"):
+							return "write"
+						case CallBuiltin(x) == "append":
+							if sl, ok := types.Unalias(x.Type()).Underlying().(*types.Slice); ok && strings.HasSuffix(sl.Elem().String(), "zapcore.Field") {
+								return "add"
+							}
+						}
+					case *ssa.Store:
+						if fa, ok := x.Addr.(*ssa.FieldAddr); ok && fieldName(fa.X.Type(), fa.Field) == "groups" {
+							base := Strip(fa.X)
+							for k := 0; k < 6; k++ {
+								if nx := st.Step(base); nx != nil {
+									base = Strip(nx)
+								}
+							}
+							if Root(base) == ssa.Value(recv) {
+								return "store-receiver-groups"
+							}
+							if n, known := st.IsNil(x.Val); known && n {
+								return "clear"
+							}
+							// keeping the parent's pending groups in a freshly built handler is no event
+							v := x.Val
+							for k := 0; k < 8; k++ {
+								if ownedBy(v, recv, 0) || st.Desc(v) == rn+".groups" {
+									return ""
+								}
+								nx := st.Step(v)
+								if nx == nil {
+									break
+								}
+								v = nx
+							}
+							return "set-groups"
+						}
+					}
+					return ""
+				},
+				Branch: func(cond ssa.Value, taken bool, st *ConcState) string {
+					pol := taken
+					for k := 0; k < 8; k++ {
+						if u, ok := cond.(*ssa.UnOp); ok && u.Op == token.NOT {
+							cond, pol = u.X, !pol
+							continue
+						}
+						if nx := st.Step(cond); nx != nil {
+							cond = nx
+							continue
+						}
+						break
+					}
+					tf := func(n string, v bool) string {
+						if v {
+							return n + "=T"
+						}
+						return n + "=F"
+					}
+					bo, ok := cond.(*ssa.BinOp)
+					if !ok {
+						return ""
+					}
+					isConv := func(v ssa.Value) bool {
+						v = Strip(v)
+						for k := 0; k < 8; k++ {
+							if cl, ok := v.(*ssa.Call); ok && IsCallTo(cl, SlogPath+".convertAttrToField") {
+								return true
+							}
+							nx := st.Step(v)
+							if nx == nil {
+								return false
+							}
+							v = Strip(nx)
+						}
+						return false
+					}
+					isSkip := func(v ssa.Value) bool {
+						cl, ok := Strip(v).(*ssa.Call)
+						return ok && IsCallTo(cl, "go.uber.org/zap.Skip")
+					}
+					if (isConv(bo.X) && isSkip(bo.Y) || isConv(bo.Y) && isSkip(bo.X)) && (bo.Op == token.NEQ || bo.Op == token.EQL) {
+						return tf("real", pol == (bo.Op == token.NEQ))
+					}
+					x, y, op := st.Desc(bo.X), st.Desc(bo.Y), bo.Op
+					if y == "len("+rn+".groups)" && x == "0" {
+						x, y, op = y, x, swapOp(op)
+					}
+					if x == "len("+rn+".groups)" && y == "0" {
+						switch op {
+						case token.GTR, token.NEQ:
+							return tf("pending", pol)
+						case token.EQL, token.LEQ:
+							return tf("pending", !pol)
+						}
+					}
+					return ""
+				},
+			})
+			n := fn.String()
+			if trunc || len(seqs) == 0 {
+				c.Und(rule, n, "emission-protocol", fn.Pos(), "path exploration incomplete (%d sequences, truncated=%v)", len(seqs), trunc)
+				continue
+			}
+			var bad []string
+			nEmit := 0
+			for _, sq := range seqs {
+				ev := strings.Split(sq, " ; ")
+				emitted, inAttr, emitThis, addedThis := false, false, false, false
+				facts := map[string]bool{}
+				cleared := false
+				why := ""
+				flush := func() {
+					// end of one attribute's step
+					if inAttr && !emitThis && !emitted && facts["pending=T"] && facts["real=T"] {
+						why = "a real field is added while groups are pending and not yet emitted"
+					}
+					if inAttr && !emitThis && !emitted && !(facts["pending=F"] || facts["real=F"]) {
+						why = "a field is added without emitting although neither 'no groups pending' nor 'field is Skip' was established"
+					}
+				}
+				for _, e := range ev {
+					switch e {
+					case "attr":
+						flush()
+						inAttr, emitThis, addedThis = true, false, false
+						facts = map[string]bool{}
+					case "emit", "ns":
+						if e == "ns" && emitThis {
+							continue
+						}
+						nEmit++
+						switch {
+						case !inAttr:
+							why = "groups emitted outside an attribute step"
+						case emitted:
+							why = "groups emitted twice"
+						case addedThis:
+							why = "groups emitted after the field they should precede"
+						case !(facts["real=T"]):
+							why = "groups emitted without having established that the field is not Skip (an empty group would appear)"
+						}
+						emitThis, emitted = true, true
+					case "add":
+						if inAttr {
+							addedThis = true
+						}
+					case "clear":
+						cleared = true
+					case "store-receiver-groups", "set-groups":
+						why = "the pending groups are overwritten (" + e + ")"
+					case "with", "write":
+						flush()
+						inAttr = false
+					default:
+						if inAttr && !addedThis {
+							facts[e] = true
+						}
+					}
+				}
+				flush()
+				if fn == wa && cleared != emitted {
+					why = "the derived handler must drop its pending groups exactly when they were emitted into the core"
+				}
+				if fn == hd && cleared {
+					why = "Handle must not clear groups"
+				}
+				if why != "" {
+					bad = append(bad, why+": "+sq)
+				}
+			}
+			if len(bad) > 3 {
+				bad = append(bad[:3], "… "+itoa(len(bad)-3)+" more")
+			}
+			c.Check(len(bad) == 0 && nEmit > 0, rule, n, "emission-protocol", fn.Pos(), "over %d paths (up to 3 attributes, helpers and the attribute callback explored inline; %d longer paths cut): the pending groups are emitted exactly once, immediately before the first field that is not Skip, only when groups are pending, never otherwise; %s: %v", len(seqs), cut, map[bool]string{true: "WithAttrs clears the clone's groups exactly when it emitted them", false: "Handle leaves the handler's groups untouched"}[fn == wa], bad)
+		}
+	}
+
 }
